@@ -209,6 +209,7 @@ func FamPeerFuzz(seed int64, n int) FuzzRecord {
 		errc := make(chan error, 1)
 		answered := make(chan struct{}, 16)
 		var closeT func()
+		var probeReq func() // sends one more, valid request on the same link
 		if !fc.Stream {
 			reqIn, resIn := newFrameQ[json.RawMessage](), newFrameQ[json.RawMessage]()
 			go func() {
@@ -225,6 +226,7 @@ func FamPeerFuzz(seed int64, n int) FuzzRecord {
 				}
 			}
 			closeT = func() { reqIn.Close(errors.New("gone")); resIn.Close(errors.New("gone")) }
+			probeReq = func() { reqIn.Put(json.RawMessage(`{"call":"probe","function":"EchoInt","args":[7,7]}`)) }
 		} else {
 			in, out := newChunkPipe(-1, seed+int64(i)), newChunkPipe(0, 0)
 			enc, dec := c.NewEncoder(out), c.NewDecoder(in)
@@ -254,6 +256,7 @@ func FamPeerFuzz(seed int64, n int) FuzzRecord {
 				}
 			}
 			closeT = func() { in.Close(errors.New("gone")); out.Close(errors.New("gone")) }
+			probeReq = func() { in.Write([]byte(`{"request":{"call":"probe","function":"EchoInt","args":[7,7]},"response":null}`)) }
 		}
 		select {
 		case <-answered:
@@ -263,6 +266,28 @@ func FamPeerFuzz(seed int64, n int) FuzzRecord {
 			errc <- err
 		case <-time.After(30 * time.Millisecond):
 			fc.Outcome = "silent"
+		}
+		// a link that was neither answered nor ended must still be alive: if everything sent so far was well-formed
+		// JSON (so that no decoder is left in the middle of a document), one more valid request is answered - or ends the link
+		if fc.Outcome == "silent" {
+			wellFormed := true
+			for _, f := range fc.Frames {
+				if !json.Valid([]byte(f)) {
+					wellFormed = false
+				}
+			}
+			if wellFormed {
+				probeReq()
+				select {
+				case <-answered:
+					fc.Outcome = "silent, then answered"
+				case err := <-errc:
+					fc.Outcome = "silent, then ended:" + errText(err)
+					errc <- err
+				case <-time.After(2 * time.Second):
+					fc.Outcome = "stalled"
+				}
+			}
 		}
 		cancel()
 		closeT()
